@@ -279,7 +279,9 @@ class ModelClient:
             self.geographic_unit_type,
             estimands,
             estimand_baselines,
-            data=preprocessed_data,
+            # work on a copy: the handler adds baseline / weight columns in place, and a caller that passes the
+            # same frame again must get the same estimates
+            data=preprocessed_data.copy() if preprocessed_data is not None else None,
             s3_client=s3.S3CsvUtil(TARGET_BUCKET),
         )
         preprocessed_data_handler.data = preprocessed_data_handler.select_rows_in_states(
